@@ -121,7 +121,7 @@ def run(tier):
         sc["meta"]["pred"] = lit_scaled(dict(MENU["count>=2"][1], lit=need))
         sc.update(gap_ms=rng.choice([180, 250]) if ng == 2 else rng.choice([300, 400]), ttl_ms=1000, span=ng)
         scen.append(sc)
-    seqfam.run_scenarios(res, scen, "TraceBatch", tag="global", relayout_p=0.3, retype_p=0.3)
+    seqfam.run_scenarios(res, scen, "TraceBatch", tag="global", relayout_p=0.3, retype_p=0.3, rename_p=0.3)
     seqfam.run_pinned(res, "TraceBatch")
     res.cov["distinct_nontrivial"] = len({json.dumps(s["rows"], sort_keys=True) + s["sql"] for s in scen})
     res.cov["rule"] = ("every row sequence (2 groups x values {NULL,-1,1,3}) of the TLA+ GlobalWin model up to the stated length for each of 8 predicates "
